@@ -99,6 +99,7 @@ package basestore
 //@   ensures result1 == nil ==> result != nil && ref(result) != 0 && ents(L)[result] && !old(ents(L)[result]) && logLen(L) == old(logLen(L)) + 1
 //@   ensures result1 == nil ==> (forall x Iface :: old(ents(L)[x]) ==> ents(L)[x])
 //@   ensures @C05 result1 == nil ==> dsHas(C)[LH] && len(headsDec(dsMap(C)[LH])) == 1 && hs(headsDec(dsMap(C)[LH])[0]) == hs(result) && headsWF(dsMap(C)[LH])
+//@   ensures @C05 @C01 forall k V_datastore_Key :: k != LH ==> dsHas(C)[k] == old(dsHas(C))[k] && dsMap(C)[k] == old(dsMap(C))[k]
 //@   ensures @C01 @C06 @C07 @C16 result1 == nil ==> synced(b)
 //@   ensures @C16 result1 == nil ==> evCount(W) == N0 + 1 && unbox(evLast(W), "V_stores_EventWrite").Entry == result
 //@   ensures @C03 result1 == nil ==> canAppendOK(acOf(L), result)
